@@ -190,3 +190,79 @@ def stream_io(P, rep, R, rule="PURE.io"):
                 rep.violation(rule, "%s opens a file stream" % F.qn, F.nloc(node), F.qn, node.get("t", "")[:60], "a query reads or writes files",
                               key="%s|%s|fstream" % (rule, F.qn), witness="query with the file changed or missing")
     rep.ok(rule, "%d reachable functions scanned" % n)
+
+
+def world_fields_initialised(P, rep, rule="INIT.world"):
+    """no query reads an indeterminate member of the world"""
+    rep.rule(rule, "every arithmetic member of World that some function reads has a default member initialiser, or is assigned on every path "
+                   "through the constructor (member-initialiser list, or a store in the constructor / in parse_entries that is not under a "
+                   "condition, or stores in both branches of one if/else): no answer depends on what the memory held before")
+    from .. import astq, norm
+    from ..astq import sc
+    rec = P.records.get("WorldBuilder::World")
+    if not rec:
+        raise AnalysisBroken("class World not found")
+    ctors = [f for f in P.funcs_named("WorldBuilder::World::World") if f.body is not None]
+    pe = P.func("WorldBuilder::World::parse_entries")
+    if not ctors:
+        raise AnalysisBroken("World constructor not found")
+    n = 0
+    for fk in rec.get("fields", []):
+        d = P.d(fk)
+        t = (d.get("t") or "").replace("const ", "").strip()
+        if not norm.is_arith(t) and t not in ("size_t", "std::size_t", "unsigned long"):
+            continue
+        read = False
+        for F in P.funcs.values():
+            if F.body is None:
+                continue
+            for x in F.walk():
+                if x.get("k") == "MemberExpr" and x.get("r") == fk:
+                    par = F.parent.get(x["i"])
+                    if par is not None and par.get("k") in ("BinaryOperator",) and par.get("op") == "=" and sc(par["c"][0]) is x:
+                        continue
+                    read = True
+                    break
+            if read:
+                break
+        if not read:
+            continue
+        n += 1
+        if d.get("dinit"):
+            rep.ok(rule, "World::%s has a default member initialiser" % d.get("n"), rec.get("loc", ""), "WorldBuilder::World")
+            continue
+        definite = False
+        for C in ctors:
+            ok_c = any(ini.get("n") == d.get("n") and ini.get("written") for ini in (C.inits or []))
+            for G in (C, pe):
+                if ok_c:
+                    break
+                stores = [x for x in G.walk() if x.get("k") == "BinaryOperator" and x.get("op") == "=" and sc(x["c"][0]).get("k") == "MemberExpr" and sc(x["c"][0]).get("r") == fk]
+                # also &field handed to a function that fills it (MPI_Comm_rank(&MPI_RANK)) counts as a store
+                for x in G.walk():
+                    if x.get("k") == "UnaryOperator" and x.get("op") == "&" and sc(x["c"][0]).get("k") == "MemberExpr" and sc(x["c"][0]).get("r") == fk:
+                        stores.append(x)
+                for st in stores:
+                    conds = [a for a in G.ancestors(st) if a.get("k") in ("IfStmt", "ForStmt", "WhileStmt", "CXXForRangeStmt", "SwitchStmt", "ConditionalOperator", "CXXTryStmt")]
+                    if not conds:
+                        ok_c = True
+                        break
+                    # if/else pair: another store in the other branch of the innermost if, itself unconditional otherwise
+                    inner = conds[0]
+                    if inner.get("k") == "IfStmt" and len(conds) == 1 and inner["c"][2] is not None:
+                        in_then = any(y is st for y in G.walk(inner["c"][1]))
+                        other = inner["c"][2] if in_then else inner["c"][1]
+                        if any(o is not st and any(y is o for y in G.walk(other)) for o in stores):
+                            ok_c = True
+                            break
+            if not ok_c:
+                definite = False
+                break
+            definite = True
+        if definite:
+            rep.ok(rule, "World::%s is assigned on every path through the constructor" % d.get("n"), ctors[0].loc, ctors[0].qn)
+        else:
+            rep.violation(rule, "World::%s is read but not assigned on every path through the constructor" % d.get("n"), ctors[0].loc, ctors[0].qn, "",
+                          "its value is whatever the memory held: answers (for instance the seed of the random engine) differ between otherwise identical worlds",
+                          key="%s|%s" % (rule, d.get("n")), witness="two worlds built from the same file in storage with different previous contents")
+    rep.floor(rule, n, 8, "arithmetic members of World that are read")
